@@ -240,16 +240,24 @@ def widths(env, g, stat):
         out = item(da.spec.gw())
         m0t = hs2 / 16.0
         ref2 = m0t * m2 / m0 - m0t * m0t * m1 * m1 / (m0 * m0)
+        if env.sym:
+            # compositional: the radicand in the library's own hs / tm01 / tm02 (each checked against the moments by
+            # `heights` and `moments` on the same grids).  The square roots are memoised per radicand, so these are
+            # the very terms gw was built from and the comparison is polynomial in them; the fully expanded form in
+            # the sixteen bin values is beyond nlsat (inconclusive in every run before this decomposition).
+            H_, T1_, T2_ = item(da.spec.hs()), item(da.spec.tm01()), item(da.spec.tm02())
+            m0c = (H_ / 4.0) * (H_ / 4.0)
+            ref2c = m0c / (T2_ * T2_) - m0c * m0c / (T1_ * T1_)
         if isnan(out):
-            env.claim(ref2 < 1e-12, "gw NaN only for a negative radicand")
+            env.claim(ref2c < 1e-12 if env.sym else ref2 < 1e-12, "gw NaN only for a negative radicand")
         elif env.sym:
-            # structural: gw is a logged square root; its radicand must equal the formula in the moments
+            # structural: gw is a logged square root; its radicand must equal the formula
             rad = [r for r, y in S.ctx().calls["sqrt"] if y.eq(out.e)]
             env.claim(len(rad) == 1, "gw is a square root")
             if rad:
-                env.close(Sym(rad[0]), ref2, "gw^2", abs_=1e-12)
+                env.close(Sym(rad[0]), ref2c, "gw^2 = m0/tm02^2 - m0^2/tm01^2 with m0 = (hs/4)^2", abs_=1e-12)
         else:
-            env.close(out * out, ref2, "gw^2", abs_=1e-12, ctol=1e-4, catol=1e-9)
+            env.close(out * out, ref2, "gw^2 = m0/tm02^2 - m0^2/tm01^2 with m0 = (hs/4)^2", abs_=1e-12, ctol=1e-4, catol=1e-9)
 
 
 def _absle(e, tol):
